@@ -272,11 +272,14 @@ class OctetStringEncoder(AbstractItemEncoder):
 
             asn1Spec = asn1Spec.clone(tagSet=tagSet)
 
+        # fragments are counted in octets (not in characters)
+        octets = substrate
+
         pos = 0
         substrate = null
 
         while True:
-            chunk = value[pos:pos + maxChunkSize]
+            chunk = octets[pos:pos + maxChunkSize]
             if not chunk:
                 break
 
